@@ -54,7 +54,8 @@ RecvStep(e) ==
   LET f1 == ApplyFc(f, e.fc)
       c  == asked
       want == [f EXCEPT ![c][1] = @ + 1, ![c][2] = IF Nrew(f, c) = 0 THEN e.r ELSE @]
-  IN [f |-> f1, err |-> IF ChangedCells(f, f1) \ {c} # {} THEN "credit.wrong-cell" ELSE IF f1 # want THEN "credit.reward" ELSE "ok"]
+  IN [f |-> f1, err |-> IF Exhausted(HMax, s) /\ c = 1 /\ ChangedCells(f, f1) \ {1} # {} THEN "seq.evidence-changed-after-exhaustion"   \* C12: further pulls do not alter the search cells
+                        ELSE IF ChangedCells(f, f1) \ {c} # {} THEN "credit.wrong-cell" ELSE IF f1 # want THEN "credit.reward" ELSE "ok"]
 
 GlpStep(e) ==
   LET cs == SeqRange(e.cands) IN
